@@ -43,9 +43,12 @@ static const XalanDOMString     s_emptyString(XalanMemMgrs::getDummyMemMgr());
 
 
 
-XercesDOMSupport::XercesDOMSupport(XercesParserLiaison&     theLiaison) :
+XercesDOMSupport::XercesDOMSupport(
+            XercesParserLiaison&        theLiaison,
+            const XercesParserLiaison*  theSourceLiaison) :
     DOMSupport(),
-    m_liaison(theLiaison)
+    m_liaison(theLiaison),
+    m_sourceLiaison(theSourceLiaison)
 {
 }
 
@@ -69,8 +72,15 @@ XercesDOMSupport::getUnparsedEntityURI(
             const XalanDOMString&   theName,
             const XalanDocument&    theDocument) const
 {
-    const XercesDocumentWrapper* const  theWrapper =
+    const XercesDocumentWrapper*    theWrapper =
         m_liaison.mapDocumentToWrapper(&theDocument);
+
+    if (theWrapper == 0 && m_sourceLiaison != 0)
+    {
+        // The document was not created by our liaison: it is the
+        // source document of a parsed source, which has its own.
+        theWrapper = m_sourceLiaison->mapDocumentToWrapper(&theDocument);
+    }
 
     if (theWrapper != 0)
     {
@@ -102,7 +112,10 @@ XercesDOMSupport::getUnparsedEntityURI(
                     const DOMEntity* const    theEntity =
                         static_cast<const DOMEntity*>(theNode);
 
-                    if(length(theEntity->getNotationName()) != 0) // then it's unparsed
+                    const XMLCh* const  theNotationName = theEntity->getNotationName();
+
+                    // A parsed entity has no notation name at all...
+                    if(theNotationName != 0 && length(theNotationName) != 0) // then it's unparsed
                     {
                         // The draft says: "The XSLT processor may use the public
                         // identifier to generate a URI for the entity instead of the URI
